@@ -21,14 +21,24 @@ func verifHarnessC16() {
 	a, err := Open(opts)
 	verifAssert(err == nil, "C16.open-err")
 	verifAssert(a.Put(kp.keys[0], []byte{1}) == nil, "C16.put-err")
+	if verifParam("pendingmerge") == 1 {
+		// the owner has a FINISHED merge waiting for adoption (merge directory with marker and hint next to the
+		// data directory): a refused Open must not adopt it, remove it or touch anything else
+		verifAssert(a.Put(kp.keys[0], []byte{3}) == nil, "C16.put-err")
+		verifAssert(a.Merge() == nil, "C16.merge-err")
+		verifAssert(verifFSExists(opts.DirPath+"-merge"), "C16.no-pending-merge")
+		verifReach("pending-merge")
+	}
 	// while a is open every other Open fails with the in-use error and leaves the directory alone
 	o2 := opts
 	o2.ShardNum = 2
 	from := verifFSOps()
+	nData, nMerge := len(verifFSList(opts.DirPath)), len(verifFSList(opts.DirPath+"-merge"))
 	b, err := Open(o2)
 	verifAssert(err == ErrDatabaseIsUsing, "C16.second-open-not-rejected")
 	verifAssert(b == nil, "C16.second-open-returned-handle")
 	vOnlyLockFileTouched(from, "C16.rejected-open-touched-directory")
+	verifAssert(len(verifFSList(opts.DirPath)) == nData && len(verifFSList(opts.DirPath+"-merge")) == nMerge, "C16.rejected-open-changed-directory-listing")
 	verifAssert(a.Put(kp.keys[0], []byte{2}) == nil, "C16.put2-err")
 	verifAssert(a.Close() == nil, "C16.close-err")
 	switch verifChoice("scenario", 4) {
@@ -68,7 +78,10 @@ func verifHarnessC16() {
 		} else {
 			verifReach("failed-open-corrupt")
 		}
-		verifCorrupt(name, p, old[p])
+		// undo the damage - unless the file was replaced meanwhile (a pending merge adopted by the Open above)
+		if cur := verifFSBytes(name); len(cur) == len(old) && cur[p] == old[p]^mask {
+			verifCorrupt(name, p, old[p])
+		}
 		c, err := Open(opts)
 		if err != nil {
 			verifNote("err", err)
